@@ -1,31 +1,50 @@
-"""C01 / C07 - core evaluation and non-local exits against the Core abstract machine (draft: seeded programs)."""
+"""C01 - core evaluation follows the language rules (order, binding, control), against the Core abstract machine."""
 import json, os, subprocess
 
 from lib import common, pipeline
 
 PROP = "C01"
 SPEC = os.path.join(common.VERIF, "spec", "Core")
+FORMS = {"core": "literal/variable/setq/progn/prog1/if/when/unless/cond (incl. test-only clauses)/case/and/or/let/let*/lambda with captured and "
+                 "updated variables/funcall/apply/#'name/named and recursive functions/mapcar/dolist/dotimes/do/do*/values/multiple-value-bind/"
+                 "list/car",
+         "ctl": "the C01 forms plus block/return-from/return from loops, tagbody/go (forward and backward), unwind-protect with cleanup "
+                "marks, error and ignore-errors; exits placed in body positions and in function argument positions"}
 
 
-def run(tier, seed, prop=PROP):
+def run(tier, seed, prop=PROP, profile="core"):
     rep = common.Report(prop, tier, seed)
     vdrive = common.build_harness()
-    n, depth = (1500, 5) if tier == "quick" else (30000, 6)
-    p = subprocess.run([vdrive, "c01", "gen", str(seed), str(n), str(depth)], capture_output=True, timeout=600)
-    if p.returncode != 0:
-        raise common.Infra("c01 gen failed: " + p.stderr.decode(errors="replace")[-1000:])
-    stimuli = [json.loads(l) for l in p.stdout.decode().splitlines() if l.strip()]
-    events = pipeline.drive(vdrive, "c01", stimuli, chunk=200)
-    res = pipeline.accept(SPEC, "CoreTrace", "CoreTrace.cfg", events, timeout=1500)
+    n, depth = (2500, 5) if tier == "quick" else (40000, 6)
+    stimuli = []
+    for k, (cnt, dep) in enumerate(((n, depth), (n // 5, depth + 1))):
+        p = subprocess.run([vdrive, "c01", "gen", str(seed * 10 + k), str(cnt), str(dep), profile], capture_output=True, timeout=900)
+        if p.returncode != 0:
+            raise common.Infra("c01 gen failed: " + p.stderr.decode(errors="replace")[-1000:])
+        for l in p.stdout.decode().splitlines():
+            if l.strip():
+                s = json.loads(l)
+                s["id"] = len(stimuli) + 1
+                stimuli.append(s)
+    events = pipeline.drive(vdrive, "c01", stimuli, chunk=150, timeout=900)
+    res = pipeline.accept(SPEC, "CoreTrace", "CoreTrace.cfg", events, timeout=3000)
     by_id = {s["id"]: s for s in stimuli}
     for b in res["bad"]:
         s = by_id[b["t"]]
         rep.violation({"property": prop, "program": s["src"], "definitions": s["defsrc"], "rejected": b["event"], "why": b["why"]},
-                      f"program {s['src'][:160]} ... rejected at {b['why']} {b['i']}")
+                      f"program {s['src'][:300]} ... rejected at {b['why']} {b['i']}: observed {json.dumps(b['event'].get('v'))[:200]}")
+    kinds = set()
+    for s in stimuli:
+        kinds.update(x.split('"')[0] for x in json.dumps(s["ast"]).split('"k": "')[1:])
     rep.cov.update({"states": res["states"], "transitions": res["lines"], "traces_validated_against_impl": len(stimuli),
                     "evaluations": res["checked"], "distinct_nontrivial": len({s["src"] for s in stimuli}),
-                    "rule": f"{n} seeded programs of depth {depth} over literal/variable/setq/let/let*/if/and/or/lambda+funcall/named calls/"
-                            "block/return-from/unwind-protect with (vmark id value) around every evaluated position; shadowing by a 3-name pool; "
-                            "exits only in body-context positions; distinct = distinct program texts",
-                    "samples": [{"program": s["src"]} for s in stimuli[:2]], "exhaustive": False})
+                    "rule": f"{len(stimuli)} seeded programs of depth {depth}/{depth + 1} over {FORMS[profile]}; (vmark id value) around every "
+                            "evaluated position; let variables from a 3-name pool so that shadowing is the norm; every mark event and the final "
+                            "values / condition class are compared, event by event, with the next observable step of the abstract machine "
+                            "Core.tla run by TLC (CoreTrace); distinct = distinct program texts",
+                    "node_kinds": sorted(kinds),
+                    "samples": [{"program": s["src"], "definitions": s["defsrc"]} for s in stimuli[:2]], "exhaustive": False})
+    rep.assumptions = ["closures and named functions use parameter names that are unique across call boundaries (a caller's variable of the "
+                       "same name would shadow the closure's: recorded deviation of the implementation, outside the generated sublanguage)",
+                       "return-from / go only to targets inside the same function body"]
     return rep.finish()
